@@ -385,6 +385,17 @@ def regex_attr(it, rx, name, node):
             h = it2.reg.overrides.get("re.sub")
             if h is not None:
                 return h(it2, rx, a, k, n)
+            repl = it2.need(a[0])
+            s_ = it2.need(a[1])
+            # deletion of every character of a single class: the result is made of the other characters
+            # (trusted: re.sub with a one-character class and an empty replacement = character-wise filter)
+            if isinstance(repl, VStr) and concrete_str(repl.z) == "":
+                tr = translate(rx)
+                keep = _complement(class_ranges_of_single_class(rx), tr.maxc)
+                r = z3.String(it2.ctx.fresh_name("re_sub"))
+                it2.ctx.assume(z3.InRe(r, z3.Star(tr.ranges_re(keep))), "re.sub(class, ''):only-other-characters-remain")
+                it2.ctx.assume(z3.Length(r) <= z3.Length(s_.z), "re.sub(class, ''):not-longer")
+                return VStr(r, s_.kind)
             raise Unsupported("re.sub")
         return VBuiltin("re.sub", sub)
     if name == "pattern":
